@@ -665,7 +665,12 @@ def assemble(unit):
         A.items.append({'name': it.name, 'kind': it.kind, 'file': it.file, 'path': it.path, 'fingerprint': fp,
                         'lines': [line0, line1], 'props': it.props})
         if it.kind == 'fn':
+            n0 = len(ch)
             build_fn(it, text, ch, tagbase)
+            # the name under which the function is emitted (signature rewrites may rename it)
+            m = re.search(r'\bfn\s+(\w+)', ''.join(c.text for c in ch[n0:]))
+            if m:
+                A.items[-1]['emitted'] = m.group(1)
         else:
             # type / const
             t = re.sub(r'^\s*pub(\([^)]*\))?\s+', '', text.lstrip())
